@@ -1228,6 +1228,10 @@ def cli_box(tier, seed):
         (['pitfall', 8, 3, 4, 3, 2], 74), (['pitfall', 6, 4, 3, 2, 4], 4 * (12 + 3 + 2 + 14 + 3)),
         (['or', 3, 2], 5), (['or', 0, 0], 0), (['and', 2, 3], 5), (['and', 0, 4], 4),
         (['true'], 0), (['false'], 0),
+        # dense random graphs with a few edges added (one variable per edge), several seeds
+        (['php', 'glrd', 12, 12, 11, 'addedges', 3], 135),
+        (['php', 'glrd', 10, 10, 9, 'addedges', 4], 94), (['subsetcard', 'glrd', 8, 8, 7, 'addedges', 2], 58),
+        (['tseitin', 'first', 'gnm', 9, 33, 'addedges', 2], 35), (['php', 'glrm', 6, 6, 33, 'addedges', 3], 36),
         # a left degree larger than the number of left vertices (and smaller than the right side)
         (['php', 3, 10, 5], 15), (['php', 2, 6, 4], 8), (['php', 'glrd', 3, 7, 5], 15),
         (['subsetcard', 'glrd', 2, 5, 3], 6), (['stone', 5, 'path', 2, '--sparse', 4], 5 + 3 * 4),
@@ -1238,6 +1242,13 @@ def cli_box(tier, seed):
         for tool in ('cnfgen', 'pbgen'):
             out.append({'kind': 'cli', 'tool': tool, 'argv': [str(a) for a in argv],
                         'expects': [n], 'rseed': 100 + i})
+    # the dense `addedges` requests under several generators (rare outcomes of
+    # the sample-and-retry loop)
+    for (argv, n) in both:
+        if 'addedges' in argv:
+            for rs in range(1, 13):
+                out.append({'kind': 'cli', 'tool': 'cnfgen', 'argv': [str(a) for a in argv],
+                            'expects': [n], 'rseed': rs})
     dimacs = 'c comment\np cnf 6 4\n1 -2 0\n3 0\n0\n-5 2 2 0\n'
     out.append({'kind': 'cli', 'tool': 'cnfgen', 'argv': ['dimacs', '@FILE'], 'expects': [6],
                 'rseed': 1, 'dimacs': dimacs})
